@@ -1,7 +1,9 @@
 """C01 -- every work unit runs exactly once (structural part)."""
-from abtverif import cfg, seq
+import re
+
+from abtverif import canon, cfg, seq
 from abtverif.seq import idx, is_call, show, has_if
-from . import common, C03, C06, C07
+from . import common, C03, C06, C07, C12
 
 EXPLANATION = (
     "Decides the single-publication / single-dispatch shape of the code.  R1: creation and revival push the new "
@@ -19,6 +21,9 @@ DECLINED = ["'by some stream that schedules its pool' and completion before fina
             "duplication caused by a user pool that hands a unit out twice"]
 ASSUMPTIONS = ["C02 (context switch), C07 (built-in pools)"]
 RULES_DOC = dict(common.SHARED_DOC)
+RULES_DOC["R11"] = "= C06.R2: a resumed unit is pushed before it stops being counted as blocked (never in flight and unaccounted: a stream may not terminate under it)"
+RULES_DOC["R12"] = "= C07.R1: every queue operation installed for a shared access mode runs under the pool lock (no unit lost or handed out twice)"
+RULES_DOC["R13"] = "= C12.R4: revive clears every pending request before the unit is pushed (a stale cancel/migrate request does not swallow the revived run)"
 RULES_DOC.update({
     "R1": "create/revive push the unit exactly once iff pool_op == PUSH, never on error paths",
     "R2": "no store to the new descriptor after it was pushed",
@@ -33,21 +38,116 @@ RULES_DOC.update({
 VARIANTS = ["no_ext_thread", "lazy_stack", "tool_interface"]
 T = "src/thread.c"
 YH = "src/include/abti_ythread.h"
+PUSHES = {"ABTI_pool_push": 1, "ABTI_pool_add_thread": 0}       # callee -> index of the unit argument
+# accessors that return the very object they are given (a ULT descriptor embeds its ABTI_thread)
+SAME_OBJECT = {"ABTI_thread_get_ythread", "ABTI_thread_get_ythread_or_null"}
+
+
+# ---- name-independent helpers (private to this file) ----------------------------------------
+
+def _macro_cv(P, name):
+    """Integer a repository macro expands to, taken from any expression of the program that was
+    produced by expanding it (conditions are compared by value, never by their spelling)."""
+    cache = P.__dict__.setdefault("_c01_macro_cv", {})
+    if name not in cache:
+        val = None
+        for F in P.functions.values():
+            for nd in F.nodes:
+                if nd and nd.get("k") == "int" and "cv" in nd and (nd.get("m") or [None])[0] == name:
+                    val = nd["cv"]
+                    break
+            if val is not None:
+                break
+        cache[name] = val
+    return cache[name]
+
+
+def _root(F, i, hops=10):
+    """Identity of the object an access path is rooted at, whatever the locals are called:
+    `x->f.g`, `&x->f`, `x[i]` are rooted at x; a local that has a single reaching definition is
+    replaced by that definition; get_ythread(x) is x.  ('var', name) or ('expr', canonical text)."""
+    at = i
+    while hops > 0:
+        hops -= 1
+        i = F.strip(i)
+        nd = F.nodes[i]
+        k = nd.get("k")
+        if k == "mem" or k == "idx":
+            i = nd["b"]
+        elif k == "un" and nd["op"] in ("&", "*"):
+            i = nd["e"]
+        elif k == "call" and nd.get("fn") in SAME_OBJECT and nd["a"]:
+            i = nd["a"][0]
+        elif k == "ref" and nd.get("dk") == "var":
+            d = canon.reaching_def(F, nd["n"], at)
+            if not isinstance(d, int) or F.nodes[F.strip(d)].get("k") in ("ilist", "zero", "int"):
+                return ("var", nd["n"])
+            i = at = d
+        else:
+            break
+    i = F.strip(i)
+    nd = F.nodes[i]
+    if nd.get("k") == "ref":
+        return ("var", nd["n"])
+    return ("expr", canon.expr(F, i, 4))
+
+
+def _val(F, i):
+    """Canonical text of a value (locals replaced by what they were assigned from)."""
+    return canon.expr(F, i, 6)
+
+
+def _after_call(t, fn):
+    """If the canonical text t starts with a call of fn: the text after its closing parenthesis; else None."""
+    if not t.startswith(fn + "("):
+        return None
+    depth = 0
+    for j in range(len(fn), len(t)):
+        if t[j] == "(":
+            depth += 1
+        elif t[j] == ")":
+            depth -= 1
+            if depth == 0:
+                return t[j + 1:]
+    return None
+
+
+class _Sel(seq.Sel):
+    """seq.Sel (canonical mode) that also labels the edges of a `switch`: the rule's `conds` is
+    given `<canonical selector> == <case value>` for a case edge (truth True) and
+    `<canonical selector> == default` for the default edge, so that a rule does not care whether a
+    dispatch is written as an if-chain or as a switch."""
+
+    def edge_select(self, F, bid, key, truth, ctx):
+        B = F.blocks[bid]
+        if B.tk == "SwitchStmt" and B.tc is not None and self.conds is not None:
+            lab = "%s == %s" % (canon.expr(F, B.tc, 4), key.rsplit(" == ", 1)[1] if key else "default")
+            try:
+                r = self.conds(lab, F, B.tc)
+            except TypeError:
+                r = self.conds(lab)
+            if isinstance(r, tuple):
+                return ("if", r[0], not bool(r[1]), bid)
+            if isinstance(r, str):
+                return ("if", r, True, bid)
+            return ("if", lab, True, bid) if r else None
+        return seq.Sel.edge_select(self, F, bid, key, truth, ctx)
 
 
 def rule_R1_R2(P, rep):
-    specs = [("ythread_create", T, "p_newthread"), ("task_create", "src/task.c", "p_newtask"), ("thread_revive", T, "p_thread")]
+    specs = [("ythread_create", T), ("task_create", "src/task.c"), ("thread_revive", T)]
     PUSH = P.enum_consts.get("THREAD_POOL_OP_PUSH")
-    for fn, file, var in specs:
+    for fn, file in specs:
         F = P.fn(fn, file)
-        has_op = any(p["n"] == "pool_op" for p in F.params)
+        opp = [p["n"] for p in F.params if p["t"] == "thread_pool_op_kind"]
+        has_op = bool(opp)
         ops = {"THREAD_POOL_OP_NONE": P.enum_consts.get("THREAD_POOL_OP_NONE"), "THREAD_POOL_OP_PUSH": PUSH,
                "THREAD_POOL_OP_INIT": P.enum_consts.get("THREAD_POOL_OP_INIT")} if has_op else {"always": None}
         for opname, opval in sorted(ops.items()):
             if has_op and opval is None:
                 rep.need(False, "enumerator %s not found" % opname)
-            sel = seq.Sel(calls={"ABTI_pool_push", "ABTI_pool_add_thread"}, rets=False)
-            ps = seq.sequences(F, sel, entry_consts={"pool_op": opval} if has_op else None, max_len=40)
+            sel = seq.Sel(calls=set(PUSHES), rets=False, canon=True)
+            ps = seq.sequences(F, sel, entry_consts={opp[0]: opval} if has_op else None, max_len=40)
             n_succ = 0
             for toks, kind, rv, rtxt in ps:
                 if kind != "ret":
@@ -61,22 +161,30 @@ def rule_R1_R2(P, rep):
                        "expected %d push(es) on this path" % want, loc="%s:%d" % (F.file, F.line),
                        site="%s/%s/%s/%d" % (fn, opname, rtxt, len(pushes)))
             rep.need(n_succ >= 1, "%s(%s): no success path" % (fn, opname))
-        # R2: nothing reachable after the push writes the descriptor
-        for bid, nid in F.calls({"ABTI_pool_push"}):
+        # R2: nothing reachable after the push writes the descriptor.  The descriptor is the object the
+        # pushed unit belongs to (root of the unit argument of the push), not a variable of a given name.
+        push_sites = F.calls(set(PUSHES))
+        rep.need(push_sites, "%s does not push the unit" % fn)
+        descs = set(_root(F, F.nodes[nid]["a"][PUSHES[F.nodes[nid]["fn"]]]) for bid, nid in push_sites)
+        rep.need(len(descs) == 1, "%s: pushed units belong to different objects %s" % (fn, sorted(descs)))
+        desc = list(descs)[0]
+        for bid, nid in push_sites:
             bad = []
             for b2, i, lh, rh in F.stores():
-                if F.base_var(lh) == var and cfg.can_reach(F, nid, i):
+                if F.field_of(lh) and _root(F, lh) == desc and cfg.can_reach(F, nid, i):
                     bad.append("%s at %s" % (F.render(i)[:60], F.loc(i)))
             for b2, i in F.calls():
                 nd = F.nodes[i]
                 if (nd.get("fn") or "").startswith("ABTD_atomic_") and "store" in nd["fn"] and nd["a"] and \
-                        F.base_var(nd["a"][0]) == var and cfg.can_reach(F, nid, i):
+                        F.field_of(nd["a"][0]) and _root(F, nd["a"][0]) == desc and cfg.can_reach(F, nid, i):
                     bad.append("%s at %s" % (F.render(i)[:60], F.loc(i)))
             rep.ob("R2", "%s: the descriptor is not written after the push at line %s" % (fn, F.nodes[nid]["l"]), not bad,
                    "; ".join(bad), loc=F.loc(nid), site="%s/after-push" % fn)
         # the function and its argument are stored (before any push)
-        st = {F.fieldpath(lh).split("::")[-1].split(".")[-1]: F.render(rh) for b, i, lh, rh in F.stores()
-              if rh is not None and F.base_var(lh) == var}
+        st = {}
+        for b, i, lh, rh in F.stores():
+            if rh is not None and F.field_of(lh) and _root(F, lh) == desc:
+                st[F.field_of(lh)[1]] = _val(F, rh)
         fparam = [p["n"] for p in F.params if "(*)(void *)" in p["t"]][0]
         aparam = [p["n"] for p in F.params if p["t"] == "void *"][0]
         rep.ob("R2", "%s stores the caller's function and argument into the unit" % fn,
@@ -88,12 +196,27 @@ def rule_R1_R2(P, rep):
 
 def rule_R3(P, rep):
     F = P.fn("ABTI_ythread_schedule", YH)
-    NONE = P.enum_consts.get("ABTI_THREAD_HANDLE_REQUEST_NONE")
-    names = {}
+    unit = F.params[2]["n"]            # the scheduled unit (third parameter of the existing function)
+    REQ = {}
     for n in ("NONE", "CANCELLED", "MIGRATED"):
-        names[n] = P.macro_val(F, "ABTI_THREAD_HANDLE_REQUEST_" + n) if hasattr(P, "macro_val") else None
-    sel = seq.Sel(calls={"ABTI_ythread_run_child", "ABTI_thread_terminate", "ABTI_pool_add_thread", "ABTI_pool_push"},
-                  indirect=True, conds=lambda t: "request_op" in t or t == "p_ythread")
+        REQ[n] = _macro_cv(P, "ABTI_THREAD_HANDLE_REQUEST_" + n)
+        rep.need(REQ[n] is not None, "value of ABTI_THREAD_HANDLE_REQUEST_%s not found" % n)
+
+    def conds(t):
+        # canonical labels: `handle_request(..)` (true = non-zero), `handle_request(..) == N`,
+        # `get_ythread_or_null(..)` (true = yieldable); switch edges give `.. == N` / `.. == default`
+        rest = _after_call(t, "ABTI_thread_handle_request")
+        if rest == "":
+            return "req"
+        m = re.match(r"^ == (\w+)$", rest or "")
+        if m:
+            return "req==%s" % m.group(1)
+        if _after_call(t, "ABTI_thread_get_ythread_or_null") == "":
+            return "yieldable"
+        return None
+
+    sel = _Sel(calls={"ABTI_ythread_run_child", "ABTI_thread_terminate", "ABTI_pool_add_thread", "ABTI_pool_push"},
+               indirect=True, conds=conds, canon=True)
     kinds = set()
     for toks, kind, rv, rtxt in seq.sequences(F, sel):
         if kind != "ret":
@@ -101,38 +224,46 @@ def rule_R3(P, rep):
         runs = idx(toks, is_call("ABTI_ythread_run_child"))
         ic = [t for t in toks if t[0] == "icall"]
         term = idx(toks, is_call("ABTI_thread_terminate"))
-        push = idx(toks, is_call({"ABTI_pool_add_thread", "ABTI_pool_push"}))
-        first = [t for t in toks if t[0] == "if" and "request_op" in t[1]]
+        push = idx(toks, is_call(set(PUSHES)))
+        # the value of the request on this path, as far as the tests decide it
+        req = None
+        if has_if(toks, "req", False):
+            req = 0
+        for t in toks:
+            if t[0] == "if" and t[1].startswith("req==") and t[2] and t[1][5:].lstrip("-").isdigit():
+                req = int(t[1][5:])
         why = []
-        if first and first[0][2] and "== 0" in first[0][1] or (first and "request_op" in first[0][1] and first[0][2] and len(first) == 1):
-            if has_if(toks, "p_ythread", True):
+        if req == REQ["NONE"]:
+            if has_if(toks, "yieldable", True):
                 k = "run-ult"
                 if len(runs) != 1 or ic or term or push:
                     why.append("a ULT must be run through exactly one run_child")
                 else:
-                    args = [F.render(a) for a in F.nodes[toks[runs[0]][-1]]["a"]]
-                    if args[2] != "p_ythread":
-                        why.append("runs %s" % args[2])
+                    a = F.nodes[toks[runs[0]][-1]]["a"][2]
+                    if _root(F, a) != ("var", unit) or not re.match(r"^ABTI_thread_get_ythread(_or_null)?\(", _val(F, a)):
+                        why.append("runs %s" % _val(F, a))
             else:
                 k = "run-tasklet"
                 if len(ic) != 1 or runs or len(term) != 1 or push:
                     why.append("a tasklet must be called once and terminated once")
                 else:
                     call = F.nodes[ic[0][-1]]
-                    callee = F.render(call["fe"])
-                    arg = F.render(call["a"][0])
-                    if callee != "p_thread->f_thread" or arg != "p_thread->p_arg":
+                    callee = canon.rooted(F, call["fe"], 6)
+                    arg = canon.rooted(F, call["a"][0], 6)
+                    if callee != unit + "->f_thread" or arg != unit + "->p_arg":
                         why.append("calls %s(%s): function and argument must both come from the scheduled unit" % (callee, arg))
                     if toks.index(ic[0]) > term[0]:
                         why.append("terminated before it ran")
-                    targ = [F.render(a) for a in F.nodes[toks[term[0]][-1]]["a"]]
-                    if targ[-1] != "p_thread":
-                        why.append("terminates %s" % targ[-1])
+                    targ = F.nodes[toks[term[0]][-1]]["a"][-1]
+                    if canon.rooted(F, targ, 6) != unit:
+                        why.append("terminates %s" % canon.rooted(F, targ, 6))
         else:
             if push:
                 k = "migrated"
                 if len(push) != 1 or runs or ic or term:
                     why.append("a migrated unit must be re-pushed exactly once and not run")
+                if req == REQ["CANCELLED"]:
+                    why.append("a cancelled unit is pushed back")
             else:
                 k = "cancelled"
                 if runs or ic or term:
@@ -146,7 +277,9 @@ def rule_R3(P, rep):
 
 def rule_R4(P, rep):
     F = P.fn("ABTD_ythread_func_wrapper", "src/arch/abtd_ythread.c")
-    sel = seq.Sel(calls={"ABTI_ythread_exit", "ABTI_ythread_context_get_ythread"}, indirect=True, decls={"p_ythread", "p_ctx"})
+    # the unit of this context: whatever local holds it, it is ABTI_ythread_context_get_ythread(<the argument>)
+    unit = "ABTI_ythread_context_get_ythread(%s)" % F.params[0]["n"]
+    sel = seq.Sel(calls={"ABTI_ythread_exit", "ABTI_ythread_context_get_ythread"}, indirect=True, canon=True)
     n = 0
     for toks, kind, rv, rtxt in seq.sequences(F, sel):
         n += 1
@@ -159,19 +292,18 @@ def rule_R4(P, rep):
             why.append("unit function called %d times" % len(ic))
         else:
             call = F.nodes[ic[0][-1]]
-            callee, arg = F.render(call["fe"]), F.render(call["a"][0])
+            callee, arg = canon.rooted(F, call["fe"], 6), canon.rooted(F, call["a"][0], 6)
             if not (callee.endswith("->thread.f_thread") and arg.endswith("->thread.p_arg") and
-                    callee.split("->")[0] == arg.split("->")[0]):
+                    callee[:-len("->thread.f_thread")] == arg[:-len("->thread.p_arg")]):
                 why.append("calls %s(%s)" % (callee, arg))
             else:
-                base = callee.split("->")[0]
-                d = [t for t in toks if t[0] == "decl" and t[1] == base]
-                if not d or "ABTI_ythread_context_get_ythread(" not in d[0][2]:
+                base = callee[:-len("->thread.f_thread")]
+                if base != unit:
                     why.append("%s is not derived from the context argument" % base)
                 if ex:
-                    eargs = [F.render(a) for a in F.nodes[toks[ex[0]][-1]]["a"]]
-                    if eargs[-1] != base:
-                        why.append("exits %s instead of %s" % (eargs[-1], base))
+                    e = canon.rooted(F, F.nodes[toks[ex[0]][-1]]["a"][-1], 6)
+                    if e != base:
+                        why.append("exits %s instead of %s" % (e, base))
         if len(ex) != 1 or (ic and toks.index(ic[0]) > ex[0]):
             why.append("must exit exactly once, after the function returned")
         rep.ob("R4", "ULT entry wrapper [%s]" % show(toks)[:200], not why, "; ".join(why), loc=F.file, site="func_wrapper/%s" % kind)
@@ -183,17 +315,29 @@ def rule_R4(P, rep):
 
 
 def rule_R5(P, rep):
-    cbs = ["ythread_callback_yield_impl", "ABTI_ythread_callback_thread_yield_to", "ABTI_ythread_callback_resume_yield_to"]
-    for cb in cbs:
+    CANCELLED = _macro_cv(P, "ABTI_THREAD_HANDLE_REQUEST_CANCELLED")
+    rep.need(CANCELLED is not None, "value of ABTI_THREAD_HANDLE_REQUEST_CANCELLED not found")
+
+    def conds(t):
+        # `handle_request(..) & CANCELLED` (true = cancelled) however the test is spelled or stored
+        m = re.match(r"^ (&|==) (\d+)$", _after_call(t, "ABTI_thread_handle_request") or "")
+        if m and int(m.group(2)) == CANCELLED:
+            return "cancelled"
+        return None
+
+    # the caller (previous ULT) as the callback receives it: the argument itself, or its p_prev member
+    cbs = [("ythread_callback_yield_impl", "&%s->thread"), ("ABTI_ythread_callback_thread_yield_to", "&%s->thread"),
+           ("ABTI_ythread_callback_resume_yield_to", "&%s->p_prev->thread")]
+    for cb, caller in cbs:
         F = P.fn(cb, "src/ythread.c")
-        sel = seq.Sel(calls={"ABTI_pool_add_thread", "ABTI_pool_push", "ABTI_thread_handle_request"},
-                      conds=lambda t: "handle_request" in t)
+        caller = caller % F.params[0]["n"]
+        sel = seq.Sel(calls={"ABTI_pool_add_thread", "ABTI_pool_push", "ABTI_thread_handle_request"}, conds=conds, canon=True)
         kinds = set()
         for toks, kind, rv, rtxt in seq.sequences(F, sel):
             if kind != "ret":
                 continue
-            push = [t for t in toks if t[0] == "call" and t[1] in ("ABTI_pool_add_thread", "ABTI_pool_push")]
-            cancelled = any(t[0] == "if" and "handle_request" in t[1] and t[2] for t in toks)
+            push = [t for t in toks if t[0] == "call" and t[1] in PUSHES]
+            cancelled = has_if(toks, "cancelled", True)
             why = []
             if cancelled:
                 kinds.add("cancelled")
@@ -203,8 +347,11 @@ def rule_R5(P, rep):
                 kinds.add("pushed")
                 if len(push) != 1:
                     why.append("caller pushed %d times" % len(push))
-                elif "p_prev" not in F.render(F.nodes[push[0][-1]]["a"][0]):
-                    why.append("pushes %s" % F.render(F.nodes[push[0][-1]]["a"][0]))
+                else:
+                    nd = F.nodes[push[0][-1]]
+                    who = canon.rooted(F, nd["a"][PUSHES[nd["fn"]]], 6)
+                    if who != (caller if nd["fn"] == "ABTI_pool_add_thread" else caller[1:] + ".unit"):
+                        why.append("pushes %s" % who)
             rep.ob("R5", "%s %s path [%s]" % (cb, "cancelled" if cancelled else "re-push", show(toks)[:160]), not why,
                    "; ".join(why), loc="%s:%d" % (F.file, F.line), site="%s/%s" % (cb, "cancelled" if cancelled else "pushed"))
         rep.ob("R5", "%s has both arms" % cb, kinds == {"cancelled", "pushed"}, str(kinds), loc=F.file, site="%s/arms" % cb)
@@ -215,13 +362,28 @@ def rule_R5(P, rep):
         F = P.fn(name, "src/ythread.c")
         c = F.calls("ythread_callback_yield_impl")
         rep.ob("R5", "%s forwards its argument to the yield implementation once" % name,
-               len(c) == 1 and F.render(F.nodes[c[0][1]]["a"][0]) == F.params[0]["n"], "", loc=F.file, site=name)
+               len(c) == 1 and _val(F, F.nodes[c[0][1]]["a"][0]) == F.params[0]["n"], "", loc=F.file, site=name)
     rep.min_instances("R5", 14)
 
 
 SCHEDS = {"basic": "src/sched/basic.c", "basic_wait": "src/sched/basic_wait.c", "prio": "src/sched/prio.c",
           "randws": "src/sched/randws.c"}
 POPS = {"ABTI_pool_pop", "ABTI_pool_pop_wait", "ABTI_pool_pop_timedwait"}
+
+
+def _r7_cond(t):
+    """Canonical labels of the tests of a scheduler loop -> the rule's own labels (polarity fixed here):
+    'popped' (true = the pop returned a unit), 'stop' (true = has_to_stop answered TRUE),
+    'no-pools' (true = the scheduler has no pool)."""
+    m = re.match(r"^(.*) == (\d+)$", t)
+    if m and m.group(1).lstrip("{").startswith(tuple(p + "(" for p in POPS)):
+        return ("popped", True)          # the label says: popped handle == ABT_THREAD_NULL
+    rest = _after_call(t, "ABTI_sched_has_to_stop")
+    if rest == "" or rest == " == 1":    # non-zero / == ABT_TRUE
+        return "stop"
+    if re.match(r"^\w+::num_pools$", t):
+        return ("no-pools", True)        # the label says: num_pools != 0
+    return None
 
 
 def rule_R7(P, rep):
@@ -234,7 +396,7 @@ def rule_R7(P, rep):
         rep.ob("R7", "%s: sched_run is the .run slot of the scheduler definition" % name, installed, "", loc=file,
                site="%s/installed" % name)
         sel = seq.Sel(calls=lambda c: c in POPS or c in ("ABTI_ythread_schedule", "ABTI_xstream_check_events", "ABTI_sched_has_to_stop"),
-                      conds=lambda t: "thread != " in t or "ABTI_sched_has_to_stop" in t or t == "num_pools == 0")
+                      conds=_r7_cond, canon=True)
         ps = seq.sequences(F, sel, max_repeat=2, max_len=60)
         n_exit = 0
         pops_seen = 0
@@ -245,7 +407,7 @@ def rule_R7(P, rep):
                 if t[0] == "call" and t[1] in POPS:
                     pops_seen += 1
                     rest = toks[i + 1:]
-                    test = [j for j, r in enumerate(rest) if r[0] == "if" and "thread != " in r[1]]
+                    test = [j for j, r in enumerate(rest) if r[0] == "if" and r[1] == "popped"]
                     nxt_pop = [j for j, r in enumerate(rest) if r[0] == "call" and r[1] in POPS]
                     end = nxt_pop[0] if nxt_pop else len(rest)
                     if test and test[0] < end and rest[test[0]][2]:
@@ -253,21 +415,17 @@ def rule_R7(P, rep):
                         if not sch:
                             why.append("unit popped by %s at line %s is dropped (not scheduled before the next pop / exit)" %
                                        (t[1], F.nodes[t[-1]]["l"]))
-                    elif not test or test[0] >= end:
-                        # a pop whose result is never tested on this path: only acceptable if the path was cut
-                        pass
             if kind == "ret":
                 n_exit += 1
-                conds = [t for t in toks if t[0] == "if" and ("has_to_stop" in t[1] or t[1] == "num_pools == 0")]
+                conds = [t for t in toks if t[0] == "if" and t[1] in ("stop", "no-pools")]
                 last = conds[-1] if conds else None
                 if last is None:
                     why.append("returns without consulting ABTI_sched_has_to_stop")
-                elif last[1] == "num_pools == 0":
+                elif last[1] == "no-pools":
                     if not last[2] or any(t[0] == "call" for t in toks):
                         why.append("early return not guarded by num_pools == 0")
                 else:
-                    if not (("== 1" in last[1] and last[2]) or ("!= 1" in last[1] and not last[2]) or
-                            ("== 0" in last[1] and not last[2])):
+                    if not last[2]:
                         why.append("leaves the loop although has_to_stop did not answer TRUE")
                     # nothing but the exit may follow the decisive test; check_events precedes it
                     li = toks.index(last)
@@ -278,7 +436,6 @@ def rule_R7(P, rep):
                     ce = [j for j, t in enumerate(toks[:li]) if t[0] == "call" and t[1] == "ABTI_xstream_check_events"]
                     if not hs or not ce or ce[-1] > hs[-1]:
                         why.append("events not checked before asking has_to_stop")
-                    sched_after_pop = [j for j, t in enumerate(toks[:li]) if t[0] == "call" and t[1] == "ABTI_ythread_schedule"]
             rep.ob("R7", "%s sched_run path %s [%s]" % (name, kind, show(toks)[-260:]), not why, "; ".join(why),
                    loc="%s:%d" % (F.file, F.line), site="%s/path/%s/%d" % (name, kind, len(toks)))
         rep.need(n_exit >= 2 and pops_seen >= 1, "%s: %d exits, %d pops" % (name, n_exit, pops_seen))
@@ -286,8 +443,8 @@ def rule_R7(P, rep):
         exits = set()
         for toks, kind, rv, rtxt in ps:
             if kind == "ret":
-                conds = [t for t in toks if t[0] == "if" and ("has_to_stop" in t[1] or t[1] == "num_pools == 0")]
-                exits.add((conds[-1][1].replace("ABTI_sched_has_to_stop(p_sched)", "STOP"), conds[-1][2]) if conds else ("none", None))
+                conds = [t for t in toks if t[0] == "if" and t[1] in ("stop", "no-pools")]
+                exits.add((conds[-1][1], conds[-1][2]) if conds else ("none", None))
         sigs[name] = frozenset(exits)
     ref = sigs["basic"]
     for name, s in sorted(sigs.items()):
@@ -314,3 +471,6 @@ def run(P, rep, tier):
     _import(rep, P, C06.rule_R5, "R8")
     _import(rep, P, C06.rule_R6, "R9")
     _import(rep, P, C07.rule_R2, "R10")
+    common.borrow(rep, P, C06.rule_R2, "R11")
+    common.borrow(rep, P, C07.rule_R1_R5, "R12", only=("R1",))
+    common.borrow(rep, P, C12.rule_R4, "R13")
